@@ -44,6 +44,10 @@ class ConcreteTimeout(Exception):
     pass
 
 
+class OutOfBounds(Exception):
+    """a symbolic value fell outside the range stated for it: the path is cut (nothing claimed)"""
+
+
 # --------------------------------------------------------------------------
 # value providers
 # --------------------------------------------------------------------------
@@ -120,7 +124,13 @@ class SymProvider:
 
     def real(self, name, lo=None, hi=None, default=None, lo_open=False, hi_open=False):
         v = self._new(float, name)
-        self._bound(v, lo, hi, lo_open, hi_open)
+        # bounds are imposed by ordinary comparisons (CrossHair's float proxy also yields nan/inf paths)
+        if v != v:
+            raise OutOfBounds(name)
+        if lo is not None and not (v > lo if lo_open else v >= lo):
+            raise OutOfBounds(name)
+        if hi is not None and not (v < hi if hi_open else v <= hi):
+            raise OutOfBounds(name)
         return v
 
     def _bound(self, v, lo, hi, lo_open=False, hi_open=False):
@@ -227,6 +237,8 @@ def run_concrete(harness, values=None, limit=60):
             r = harness(S)
     except ConcreteTimeout as e:
         return ("fail", "timeout", str(e), S.used)
+    except OutOfBounds:
+        return ("cut", None, None, S.used)
     except Exception as e:  # noqa: BLE001 - any exception escaping the harness is a failure
         import traceback
 
@@ -268,6 +280,8 @@ def decide(harness, timeout=60.0, per_path=20.0, max_fail_labels=3, extra_paths_
         state["S"] = S
         try:
             return harness(S)
+        except OutOfBounds:
+            return CUT
         except Exception as e:  # noqa: BLE001  (CrossHair control flow is BaseException)
             import traceback
 
